@@ -74,3 +74,28 @@ pub fn fmt_u64(_v: &u64, _f: &mut std::fmt::Formatter<'_>) -> std::fmt::Result {
 pub fn fmt_i64(_v: &i64, _f: &mut std::fmt::Formatter<'_>) -> std::fmt::Result {
     Ok(())
 }
+
+/// Anchor's `error!(CoreError::X)` calls `x.name()` (a generated match with one `String`
+/// allocation per variant) and renders `x.to_string()`; error texts are never the subject.
+pub fn core_error_name(_e: &gmsol_store::CoreError) -> String {
+    String::new()
+}
+pub fn fmt_core_error(_e: &gmsol_store::CoreError, _f: &mut std::fmt::Formatter<'_>) -> std::fmt::Result {
+    Ok(())
+}
+pub fn general_error_name(_e: &gmsol_utils::GeneralError) -> String {
+    String::new()
+}
+pub fn fmt_general_error(_e: &gmsol_utils::GeneralError, _f: &mut std::fmt::Formatter<'_>) -> std::fmt::Result {
+    Ok(())
+}
+
+/// `u128::to_string()` / `u64::to_string()` (used by `require_gte!`/`require_eq!`… to render the
+/// compared values) bypass `Display::fmt` through a specialised fast path (`_fmt`); rendering a
+/// symbolic u128 is dozens of symbolic 128-bit divisions. Error texts are not the subject.
+pub unsafe fn u128_fmt<'a>(_v: u128, _buf: &'a mut [core::mem::MaybeUninit<u8>]) -> &'a str {
+    ""
+}
+pub unsafe fn u64_fmt<'a>(_v: u64, _buf: &'a mut [core::mem::MaybeUninit<u8>]) -> &'a str {
+    ""
+}
